@@ -132,6 +132,16 @@ static std::vector<std::uint8_t> mkPayload(unsigned pat, std::size_t len)
   return v;
 }
 
+// payload that names its sender: 'T', thread, seq (2 BE), total length (4 BE), then a body derived from (thread, seq)
+static std::vector<std::uint8_t> mkTagged(unsigned thr, unsigned seq, std::size_t len)
+{
+  std::vector<std::uint8_t> v(len);
+  v[0] = 'T'; v[1] = static_cast<std::uint8_t>(thr); v[2] = static_cast<std::uint8_t>(seq >> 8); v[3] = static_cast<std::uint8_t>(seq);
+  v[4] = static_cast<std::uint8_t>(len >> 24); v[5] = static_cast<std::uint8_t>(len >> 16); v[6] = static_cast<std::uint8_t>(len >> 8); v[7] = static_cast<std::uint8_t>(len);
+  for (std::size_t j = 8; j < len; ++j) v[j] = patByte(thr * 64u + seq + 1u, j - 8);
+  return v;
+}
+
 static void tok(const std::string &t)
 {
   pthread_t me = pthread_self();
@@ -157,6 +167,11 @@ struct Fault
 {
   char kind = 'p';   // p pass | c cut to n | m cut to len-n | f cut to len*n/1000 | a EAGAIN | r WANT_READ | w WANT_WRITE | e error
   long n = 0;
+  // C / M / F / R (upper case in the schedule): the same short write / WANT_READ, but the socket STAYS writable and NO edge is
+  // fabricated afterwards. That is a legal environment (send() may return a short count for any reason, e.g. memory pressure;
+  // SSL_write wants to READ while the socket is writable): the only thing that makes an edge-triggered epoll report EPOLLOUT
+  // again is the engine's own epoll_ctl(MOD) after the write attempt.
+  bool noEdge = false;
 };
 struct Sched
 {
@@ -190,7 +205,8 @@ static void rearm()
   cnt("rearm_emulated");
 }
 
-static bool engineCall(int fd) { return !t_harness && g_engine && fd >= 0 && fd == g_sessFd.load(); }
+// once the traced session is closed its fd number may be reused by another session of the same engine: stop tracing it
+static bool engineCall(int fd) { return !t_harness && g_engine && fd >= 0 && fd == g_sessFd.load() && !g_sessDead.load(); }
 
 // ====================================================================================== interposers: plain socket
 extern "C" ssize_t send(int fd, const void *buf, size_t len, int flags)
@@ -219,7 +235,8 @@ extern "C" ssize_t send(int fd, const void *buf, size_t len, int flags)
   if (r >= 0 && static_cast<std::size_t>(r) < len && !inj) cnt("send_real_short");
   std::snprintf(b, sizeof b, "W0:%zu:%08x:%s", len, fnv(static_cast<const std::uint8_t *>(buf), len), res.c_str());
   tok(b);
-  if (inj) rearm();
+  if (inj && !f.noEdge) rearm();
+  if (inj && f.noEdge) cnt("send_inj_short_no_edge");
   errno = e;
   return r;
 }
@@ -257,7 +274,7 @@ static bool engineSsl(const SSL *ssl)
 {
   if (t_harness || !g_engine || !ssl) return false;
   int fd = SSL_get_fd(ssl);
-  return fd >= 0 && fd == g_sessFd.load();
+  return fd >= 0 && fd == g_sessFd.load() && !g_sessDead.load();
 }
 using ssl_get_error_t = int (*)(const SSL *, int);
 static ssl_get_error_t real_SSL_get_error() { static auto r = realSym<ssl_get_error_t>("SSL_get_error"); return r; }
@@ -286,6 +303,7 @@ extern "C" int SSL_write(SSL *ssl, const void *buf, int num)
   int r;
   std::string res;
   bool inj = false;
+  bool noEdge = false;
   if (g_sslPendK > 0)
   {
     // retry of a call OpenSSL has already started: same buffer, same length, no new fault
@@ -297,6 +315,7 @@ extern "C" int SSL_write(SSL *ssl, const void *buf, int num)
   else
   {
     Fault f = g_wf.next();
+    noEdge = f.noEdge;
     if (f.kind == 'r' || f.kind == 'w' || f.kind == 'a')
     {
       r = -1; inj = true;
@@ -334,7 +353,8 @@ extern "C" int SSL_write(SSL *ssl, const void *buf, int num)
   char b[96];
   std::snprintf(b, sizeof b, "W1:%d:%08x:%s", num, fnv(static_cast<const std::uint8_t *>(buf), static_cast<std::size_t>(num)), res.c_str());
   tok(b);
-  if (inj) rearm();
+  if (inj && !noEdge) rearm();
+  if (inj && noEdge) cnt("SSL_write_inj_no_edge");
   return r;
 }
 
@@ -422,7 +442,7 @@ static std::string maskBits(std::uint32_t m)
 
 extern "C" int epoll_ctl(int epfd, int op, int fd, struct epoll_event *ev)
 {
-  if (!t_harness && g_engine && epfd == g_engine->_epollFd && fd == g_sessFd.load() && fd >= 0)
+  if (!t_harness && g_engine && epfd == g_engine->_epollFd && fd == g_sessFd.load() && fd >= 0 && !g_sessDead.load())
   {
     cnt("epoll_ctl_fired");
     if (op == EPOLL_CTL_DEL) { g_sessDead.store(true); tok("E:D:0"); }
@@ -454,7 +474,7 @@ extern "C" int epoll_wait(int epfd, struct epoll_event *evs, int maxevents, int 
     for (int i = 0; i < n; ++i)
     {
       int fd = evs[i].data.fd;
-      const char *kind = fd == g_engine->_eventFd ? "v" : fd == g_engine->_timerFd ? "t" : (fd == g_sessFd.load() ? "s" : "l");
+      const char *kind = fd == g_engine->_eventFd ? "v" : fd == g_engine->_timerFd ? "t" : (fd == g_sessFd.load() && !g_sessDead.load() ? "s" : "l");
       std::uint32_t m = evs[i].events;
       tok(std::string("V:") + kind + ":" + maskBits(m));
     }
@@ -475,6 +495,21 @@ extern "C" int getsockopt(int fd, int level, int optname, void *optval, socklen_
     errno = e;
   }
   return r;
+}
+
+// connect-completion probe: answer ENOTCONN ("not yet") / ECONNREFUSED for the first calls of a case (loopback connects complete
+// inside doConnect otherwise, so the connect window would never be seen). After "not yet" the writability edge is re-issued.
+static std::vector<char> g_gp;
+static std::size_t g_gpIdx = 0;
+extern "C" int getpeername(int fd, struct sockaddr *addr, socklen_t *len)
+{
+  static auto real = realSym<int (*)(int, struct sockaddr *, socklen_t *)>("getpeername");
+  if (!engineCall(fd)) return real(fd, addr, len);
+  cnt("getpeername_fired");
+  char k = g_gpIdx < g_gp.size() ? g_gp[g_gpIdx++] : 'p';
+  if (k == 'n') { cnt("getpeername_inj_enotconn"); rearm(); errno = ENOTCONN; return -1; }
+  if (k == 'r') { cnt("getpeername_inj_refused"); errno = ECONNREFUSED; return -1; }
+  return real(fd, addr, len);
 }
 
 extern "C" int accept4(int fd, struct sockaddr *addr, socklen_t *len, int flags)
@@ -575,6 +610,9 @@ struct Case
   std::size_t peerChunk = 65536;
   long peerDelayUs = 0, peerStartUs = 0;
   long long peerCloseAfter = -1;   // peer closes its end after having read this many bytes
+  bool async = false;              // every second send goes through sendAsync
+  bool nolock = false;             // senders call Transport::send concurrently (no harness mutex); payloads carry (thread, seq)
+  std::vector<PeerWrite> s2;       // payloads for a SECOND live session on the same engine (not traced; cross-talk monitor)
   bool expectEarlyEnd = false;     // the schedule contains something that may legitimately end the session early
   bool lossy = false;              // drop-oldest backpressure policy with a small queue: bytes may be dropped by design
 };
@@ -596,6 +634,7 @@ static bool parseSched(const std::string &s, Sched &out)
     if (t.empty()) return false;
     Fault f;
     f.kind = t[0];
+    if (std::string("CMFR").find(f.kind) != std::string::npos) { f.noEdge = true; f.kind = static_cast<char>(std::tolower(f.kind)); }
     if (std::string("pcmfarwe").find(f.kind) == std::string::npos) return false;
     if (t.size() > 1) { unsigned long long v; if (!vh::parseNat(t.substr(1), v)) return false; f.n = static_cast<long>(v); }
     out.v.push_back(f);
@@ -629,6 +668,25 @@ static bool parseCase(const std::vector<std::string> &t, Case &c)
     else if (k == "pclose") { if (v == "-") c.peerCloseAfter = -1; else { if (!nat()) return false; c.peerCloseAfter = static_cast<long long>(n); } }
     else if (k == "expectend") { if (!nat()) return false; c.expectEarlyEnd = n; }
     else if (k == "lossy") { if (!nat()) return false; c.lossy = n; }
+    else if (k == "async") { if (!nat()) return false; c.async = n; }
+    else if (k == "nolock") { if (!nat()) return false; c.nolock = n; }
+    else if (k == "gp")
+    {
+      g_gp.clear();
+      if (v == "-") continue;
+      for (char ch : v) { if (ch != 'n' && ch != 'r' && ch != 'p') return false; g_gp.push_back(ch); }
+    }
+    else if (k == "s2")
+    {
+      if (v == "-") continue;
+      for (auto &it : splitc(v, ','))
+      {
+        auto p = splitc(it, '.');
+        unsigned long long a, b;
+        if (p.size() != 2 || !vh::parseNat(p[0], a) || !vh::parseNat(p[1], b) || a == 0) return false;
+        c.s2.push_back(PeerWrite{static_cast<std::size_t>(a), static_cast<unsigned>(b), 0});
+      }
+    }
     else if (k == "peer")
     {
       auto p = splitc(v, '.');
@@ -843,6 +901,7 @@ static void runCase(const Case &c, SSL_CTX *peerCli, SSL_CTX *peerSrv)
   g_sessFd.store(-1); g_sessDead.store(false); g_lastMask = 0; g_registered = false;
   g_waitIdx = 0; g_sslPendK = 0; g_sslPendBuf = nullptr; g_movedRetries = 0;
   g_peerRx.store(0); g_peerWritten.store(0); g_peerDone.store(false); g_peerFd.store(-1); g_peerAbort.store(false); g_peerWritesDone.store(false);
+  g_gpIdx = 0;
 
   auto caseStart = Clock::now();
   TransportConfig cfg;
@@ -868,17 +927,24 @@ static void runCase(const Case &c, SSL_CTX *peerCli, SSL_CTX *peerSrv)
   auto *eng = dynamic_cast<TcpEngine *>(t->_impl->engine.get());
   if (!eng) throw Machinery("engine is not a TcpEngine");
 
-  std::atomic<long long> sid{-1};
-  std::atomic<int> connectedCb{0}, acceptedCb{0}, closedCb{0};
+  // session ids are handed out in order: the first session of this engine is the traced one, a second one (s2) is only monitored
+  const SessionId tracedSid = eng->_nextSessionId.load();
+  std::atomic<long long> sid{-1}, sid2{-1};
+  std::atomic<int> connectedCb{0}, acceptedCb{0}, closedCb{0}, connected2{0}, closed2{0};
   std::string closeWhy = "-";
   std::vector<std::uint8_t> delivered;      // I/O thread only until stop()
   std::atomic<std::size_t> deliveredN{0};
-  t->onAccept([&](SessionId s, const TransportAddress &) { tok("Ca"); acceptedCb++; long long e = -1; sid.compare_exchange_strong(e, static_cast<long long>(s)); });
-  t->onConnect([&](SessionId, const TransportAddress &) { tok("Cc"); connectedCb++; });
+  t->onAccept([&](SessionId s, const TransportAddress &)
+  {
+    if (s == tracedSid) { tok("Ca"); acceptedCb++; sid.store(static_cast<long long>(s)); }
+    else sid2.store(static_cast<long long>(s));
+  });
+  t->onConnect([&](SessionId s, const TransportAddress &) { if (s == tracedSid) { tok("Cc"); connectedCb++; } else connected2++; });
   std::size_t echoIdx = 0;                  // I/O thread only
   Transport *tp = t.get();
   t->onData([&](SessionId sidArg, iora::core::BufferView d, std::chrono::steady_clock::time_point)
   {
+    if (sidArg != tracedSid) return;
     char b[64];
     std::snprintf(b, sizeof b, "Cd:%zu:%08x", d.size(), fnv(d.data(), d.size()));
     tok(b);
@@ -896,7 +962,11 @@ static void runCase(const Case &c, SSL_CTX *peerCli, SSL_CTX *peerSrv)
     }
     deliveredN.store(delivered.size());   // after the echo was accepted: the main thread's "all delivered" implies "all echoes counted"
   });
-  t->onClose([&](SessionId, const TransportErrorInfo &r) { closeWhy = whyName(r); tok("Cx:" + closeWhy); closedCb++; });
+  t->onClose([&](SessionId s, const TransportErrorInfo &r)
+  {
+    if (s == tracedSid) { closeWhy = whyName(r); tok("Cx:" + closeWhy); closedCb++; }
+    else closed2++;
+  });
 
   g_engine = eng;
   auto sr = t->start();
@@ -950,13 +1020,110 @@ static void runCase(const Case &c, SSL_CTX *peerCli, SSL_CTX *peerSrv)
     if (cr.isOk()) sid.store(static_cast<long long>(cr.value()));
   }
 
-  auto deadline = Clock::now() + milliseconds(30000);
+  // watchdog: 30 s plus three times what the schedule itself asks for (peer read delays, start delays, sender gaps)
+  long long askedUs = c.peerStartUs + c.hsDelayUs;
+  {
+    std::size_t tot = 0;
+    for (auto &it : c.sends) { tot += it.len; askedUs += it.gapUs; }
+    for (auto &w : c.pw) askedUs += w.gapUs;
+    askedUs += static_cast<long long>(tot / c.peerChunk + 1) * c.peerDelayUs;
+  }
+  auto deadline = Clock::now() + milliseconds(30000 + 3 * askedUs / 1000);
   auto waitFor = [&](auto pred) { while (!pred()) { if (Clock::now() > deadline) return false; sleepUs(200); } return true; };
   bool stall = false;
   // senders start as soon as the id is known (early: inside the connect / handshake window) or after the connect callback
   bool haveSid = waitFor([&] { return sid.load() >= 0 || closedCb.load() > 0; });
   if (haveSid && !c.early) waitFor([&] { return connectedCb.load() > 0 || closedCb.load() > 0 || (c.srv && !c.tls && acceptedCb.load() > 0); });
+  // ---- a second live session on the same engine
+  PeerResult pr2;
+  std::thread peer2;
+  std::atomic<std::size_t> peer2Rx{0};
+  std::atomic<bool> peer2Done{true};
+  std::vector<std::uint8_t> expect2;
+  bool haveS2 = false;
+  auto peer2Loop = [&](int fd)
+  {
+    SSL *ssl = nullptr;
+    if (c.tls)
+    {
+      ssl = SSL_new(c.srv ? peerCli : peerSrv);
+      SSL_set_fd(ssl, fd);
+      if ((c.srv ? SSL_connect(ssl) : SSL_accept(ssl)) != 1) { pr2.hsOk = false; pr2.eof = 2; SSL_free(ssl); ::close(fd); peer2Done.store(true); return; }
+    }
+    std::vector<std::uint8_t> buf(16384);
+    for (;;)
+    {
+      if (g_peerAbort.load()) break;
+      if (!(ssl && SSL_has_pending(ssl))) { struct pollfd p{fd, POLLIN, 0}; if (::poll(&p, 1, 1) <= 0) continue; }
+      long n = ssl ? SSL_read(ssl, buf.data(), static_cast<int>(buf.size())) : ::recv(fd, buf.data(), buf.size(), 0);
+      if (n > 0) { pr2.rx.insert(pr2.rx.end(), buf.begin(), buf.begin() + n); peer2Rx.store(pr2.rx.size()); continue; }
+      if (n == 0) { pr2.eof = 1; break; }
+      if (ssl)
+      {
+        int ge = SSL_get_error(ssl, static_cast<int>(n));
+        if (ge == SSL_ERROR_ZERO_RETURN) { pr2.eof = 1; break; }
+        if (ge == SSL_ERROR_WANT_READ || ge == SSL_ERROR_WANT_WRITE) continue;
+        pr2.eof = 2; break;
+      }
+      if (errno == EINTR || errno == EAGAIN) continue;
+      pr2.eof = 2; break;
+    }
+    if (ssl) { if (pr2.eof != 2) SSL_shutdown(ssl); SSL_free(ssl); }
+    ::close(fd);
+    peer2Done.store(true);
+  };
+  if (!c.s2.empty() && !c.nolock && sid.load() >= 0 && closedCb.load() == 0)
+  {
+    waitFor([&] { return g_peerFd.load() >= 0 || g_peerDone.load(); });   // peer 1 has its connection: the next one is session 2's
+    peer2Done.store(false);
+    if (c.srv)
+    {
+      peer2 = std::thread([&, port]
+      {
+        t_harness = true;
+        int fd = ::socket(AF_INET, SOCK_STREAM, 0);
+        sockaddr_in a{};
+        a.sin_family = AF_INET; a.sin_addr.s_addr = htonl(INADDR_LOOPBACK); a.sin_port = htons(port);
+        if (fd < 0 || ::connect(fd, reinterpret_cast<sockaddr *>(&a), sizeof a) != 0) { pr2.eof = 2; pr2.hsOk = false; peer2Done.store(true); return; }
+        peer2Loop(fd);
+      });
+    }
+    else
+    {
+      peer2 = std::thread([&]
+      {
+        t_harness = true;
+        struct pollfd p{ls, POLLIN, 0};
+        int fd = -1;
+        for (int i = 0; i < 2500 && !g_peerAbort.load(); ++i) { if (::poll(&p, 1, 2) > 0) { fd = ::accept(ls, nullptr, nullptr); break; } }
+        if (fd < 0) { pr2.eof = 2; pr2.hsOk = false; peer2Done.store(true); return; }
+        peer2Loop(fd);
+      });
+      std::lock_guard<std::mutex> g(g_accMx);
+      auto cr2 = t->connect("127.0.0.1", port, c.tls ? TlsMode::Client : TlsMode::None);
+      if (cr2.isOk()) { g_acc.push_back("X"); sid2.store(static_cast<long long>(cr2.value())); }
+    }
+    auto d2 = Clock::now() + milliseconds(5000);
+    while (sid2.load() < 0 && Clock::now() < d2 && !peer2Done.load()) sleepUs(200);
+    haveS2 = sid2.load() >= 0;
+  }
+
   std::vector<std::thread> senders;
+  std::atomic<int> taggedAccepted{0};
+  if (haveS2)
+  {
+    senders.emplace_back([&]
+    {
+      t_harness = true;
+      SessionId s2id = static_cast<SessionId>(sid2.load());
+      for (auto &w : c.s2)
+      {
+        auto pl = mkPayload(w.pat, w.len);
+        std::lock_guard<std::mutex> g(g_accMx);
+        if (t->send(s2id, iora::core::BufferView{pl.data(), pl.size()})) { g_acc.push_back("X"); expect2.insert(expect2.end(), pl.begin(), pl.end()); }
+      }
+    });
+  }
   if (sid.load() >= 0)
   {
     SessionId s = static_cast<SessionId>(sid.load());
@@ -965,11 +1132,31 @@ static void runCase(const Case &c, SSL_CTX *peerCli, SSL_CTX *peerSrv)
       senders.emplace_back([&, k, s]
       {
         t_harness = true;
+        unsigned seq = 0, idx = 0;
+        auto doSendCall = [&](const std::vector<std::uint8_t> &pl) -> bool
+        {
+          // every second call goes through sendAsync (its completion callback runs synchronously and reports the enqueue result)
+          if (c.async && (idx++ % 2))
+          {
+            bool ok = false;
+            t->sendAsync(s, iora::core::BufferView{pl.data(), pl.size()}, [&ok](SessionId, const SendResult &r) { ok = r.isOk(); });
+            return ok;
+          }
+          return t->send(s, iora::core::BufferView{pl.data(), pl.size()});
+        };
         for (auto &it : c.sends)
         {
           if (it.thr != k) continue;
           sleepUs(it.gapUs);
-          if (it.len == 0)
+          if (c.nolock)
+          {
+            // NO harness mutex: the calls of different sender threads really overlap; the payload names its sender
+            if (it.len == 0) continue;
+            std::size_t ln = std::max<std::size_t>(it.len, 8);
+            auto pl = mkTagged(static_cast<unsigned>(k), seq, ln);
+            if (doSendCall(pl)) { ++seq; g_expTotal.fetch_add(ln); taggedAccepted++; }
+          }
+          else if (it.len == 0)
           {
             std::lock_guard<std::mutex> g(g_accMx);
             if (t->close(s)) { g_acc.push_back("C"); g_accSawClose = true; }
@@ -978,7 +1165,7 @@ static void runCase(const Case &c, SSL_CTX *peerCli, SSL_CTX *peerSrv)
           {
             auto pl = mkPayload(it.pat, it.len);
             std::lock_guard<std::mutex> g(g_accMx);
-            if (t->send(s, iora::core::BufferView{pl.data(), pl.size()})) noteAcceptedSend(it.len, it.pat);
+            if (doSendCall(pl)) noteAcceptedSend(it.len, it.pat);
           }
         }
       });
@@ -1001,8 +1188,9 @@ static void runCase(const Case &c, SSL_CTX *peerCli, SSL_CTX *peerSrv)
   bool all = waitFor([&]
   {
     if (closedCb.load() > 0 || g_peerDone.load()) return true;
-    if (g_peerRx.load() >= g_expTotal.load() && g_peerWritesDone.load() && deliveredN.load() >= g_peerWritten.load()) return true;
-    std::size_t rx = g_peerRx.load() + deliveredN.load() + g_peerWritten.load();
+    if (g_peerRx.load() >= g_expTotal.load() && g_peerWritesDone.load() && deliveredN.load() >= g_peerWritten.load() &&
+        (!haveS2 || peer2Done.load() || peer2Rx.load() >= expect2.size())) return true;
+    std::size_t rx = g_peerRx.load() + deliveredN.load() + g_peerWritten.load() + peer2Rx.load();
     auto now = Clock::now();
     long long dt = std::chrono::duration_cast<microseconds>(now - lastPoll).count();
     lastPoll = now;
@@ -1040,7 +1228,47 @@ static void runCase(const Case &c, SSL_CTX *peerCli, SSL_CTX *peerSrv)
   while (!g_peerDone.load() && Clock::now() < pdl) sleepUs(200);
   if (!g_peerDone.load()) { g_peerAbort.store(true); stall = true; }
   peer.join();
+  if (peer2.joinable())
+  {
+    auto p2 = Clock::now() + milliseconds(5000);
+    while (!peer2Done.load() && Clock::now() < p2) sleepUs(200);
+    if (!peer2Done.load()) g_peerAbort.store(true);
+    peer2.join();
+  }
   if (ls >= 0) ::close(ls);
+
+  // ---- unlocked senders: the accepted order is what the peer saw; every frame must be whole, per thread in sequence, intact
+  long long tagErr = -1;
+  int tagFrames = 0;
+  std::string tagWhat = "-";
+  if (c.nolock)
+  {
+    std::vector<unsigned> nextSeq(static_cast<std::size_t>(c.thr), 0);
+    std::size_t pos = 0;
+    std::vector<std::string> frames;
+    while (pos < pr.rx.size())
+    {
+      if (pr.rx.size() - pos < 8) { tagErr = static_cast<long long>(pos); tagWhat = "truncated-header"; break; }
+      const std::uint8_t *h = pr.rx.data() + pos;
+      unsigned thr = h[1], seq = (static_cast<unsigned>(h[2]) << 8) | h[3];
+      std::size_t ln = (static_cast<std::size_t>(h[4]) << 24) | (static_cast<std::size_t>(h[5]) << 16) | (static_cast<std::size_t>(h[6]) << 8) | h[7];
+      if (h[0] != 'T' || thr >= static_cast<unsigned>(c.thr) || ln < 8) { tagErr = static_cast<long long>(pos); tagWhat = "not-a-frame-start(interleaved-or-corrupt)"; break; }
+      if (seq != nextSeq[thr]) { tagErr = static_cast<long long>(pos); tagWhat = seq < nextSeq[thr] ? "duplicate-or-reordered-within-thread" : "lost-or-reordered-within-thread"; break; }
+      if (pr.rx.size() - pos < ln) { tagErr = static_cast<long long>(pos); tagWhat = "truncated-frame"; break; }
+      auto want = mkTagged(thr, seq, ln);
+      if (std::memcmp(want.data(), h, ln) != 0) { tagErr = static_cast<long long>(pos); tagWhat = "body-corrupt"; break; }
+      nextSeq[thr]++;
+      frames.push_back("T" + std::to_string(ln) + "." + std::to_string(thr) + "." + std::to_string(seq));
+      pos += ln;
+      ++tagFrames;
+    }
+    // the accepted order, for the acceptor: the commands recorded so far (L / K / X ...), then the frames in wire order, then Q
+    std::vector<std::string> acc2;
+    for (auto &a : g_acc) if (a != "Q") acc2.push_back(a);
+    for (auto &f : frames) acc2.push_back(f);
+    acc2.push_back("Q");
+    g_acc = acc2;
+  }
 
   // expected stream = accepted Send payloads in accepted order (those before an accepted Close; later ones are dropped by design)
   std::vector<std::uint8_t> expect;
@@ -1063,6 +1291,7 @@ static void runCase(const Case &c, SSL_CTX *peerCli, SSL_CTX *peerSrv)
     for (std::size_t i = 0; i < n; ++i) if (got[i] != want[i]) return static_cast<long long>(i);
     return got.size() > want.size() ? static_cast<long long>(want.size()) : -1;
   };
+  if (c.nolock) expect = pr.rx;      // order is checked by the frame monitor above
   std::vector<std::uint8_t> pwAll;
   for (auto &w : c.pw) { auto pl = mkPayload(w.pat, w.len); pwAll.insert(pwAll.end(), pl.begin(), pl.end()); }
 
@@ -1071,11 +1300,13 @@ static void runCase(const Case &c, SSL_CTX *peerCli, SSL_CTX *peerSrv)
   std::printf("begin %s\n%s\n", c.id.c_str(), accLine.c_str());
   for (auto &s : g_segs) std::printf("seg %s\n", s.c_str());
   std::printf("fin peer_rx=%zu exp_total=%zu peer_diff=%lld peer_eof=%d dlv=%zu pw_written=%zu pw_total=%zu dlv_diff=%lld closed_cb=%d close_why=%s "
-              "connected_cb=%d accepted_cb=%d stall=%d foreign=%d peer_hs=%d moved=%d ms=%lld stall_outq=%ld stall_peer_inq=%ld note=%s\n",
-              pr.rx.size(), expect.size(), firstDiff(pr.rx, expect), pr.eof, delivered.size(), pr.written, pwTotal,
+              "connected_cb=%d accepted_cb=%d stall=%d foreign=%d peer_hs=%d moved=%d ms=%lld stall_outq=%ld stall_peer_inq=%ld "
+              "tag_err=%lld tag_what=%s tag_frames=%d tag_accepted=%d s2=%d s2_rx=%zu s2_total=%zu s2_diff=%lld note=%s\n",
+              pr.rx.size(), c.nolock ? g_expTotal.load() : expect.size(), firstDiff(pr.rx, expect), pr.eof, delivered.size(), pr.written, pwTotal,
               firstDiff(delivered, pwAll), closedCb.load(), closeWhy.c_str(), connectedCb.load(), acceptedCb.load(), stall ? 1 : 0,
               g_foreignThread.load() ? 1 : 0, pr.hsOk ? 1 : 0, g_movedRetries,
-              static_cast<long long>(std::chrono::duration_cast<milliseconds>(Clock::now() - caseStart).count()), stallOutq, stallPeerInq, pr.note.empty() ? "-" : pr.note.c_str());
+              static_cast<long long>(std::chrono::duration_cast<milliseconds>(Clock::now() - caseStart).count()), stallOutq, stallPeerInq,
+              tagErr, tagWhat.c_str(), tagFrames, taggedAccepted.load(), haveS2 ? 1 : 0, pr2.rx.size(), expect2.size(), firstDiff(pr2.rx, expect2), pr.note.empty() ? "-" : pr.note.c_str());
   std::printf("end %s\n", c.id.c_str());
   std::fflush(stdout);
 }
@@ -1132,7 +1363,7 @@ int main()
       continue;
     }
     Case c;
-    g_wf = Sched{}; g_rf = Sched{}; g_hf = Sched{}; g_waitDelays.clear();
+    g_wf = Sched{}; g_rf = Sched{}; g_hf = Sched{}; g_waitDelays.clear(); g_gp.clear();
     if (!parseCase(toks, c)) { std::printf("bad-op\n"); std::fflush(stdout); continue; }
     g_caseStartMs.store(std::chrono::duration_cast<milliseconds>(Clock::now().time_since_epoch()).count());
     try
